@@ -311,6 +311,9 @@ def run(chk):
     chk.rule('R3', 'values from file/environment never count against the cardinality', 7)
     chk.rule('R4', 'constraints matched with the canonical key and removed for every requirer (no spurious "required ... is missing")', 6)
     c05.r2(chk, prog, rule='R1')
+    # ... and over the two key containers of a handler: the complete key of a sub-group argument is not
+    # pre-empted by a normal argument it abbreviates (lookup table of C05-R5)
+    c05.r5_lookup_table(chk, prog, rule='R1')
     c02_shapes.run(chk, prog, rule='R2')
     r3(chk, prog)
     chk.rule('R5', 'every count against the cardinality is guarded by the ignore_cardinality information', 5)
